@@ -132,21 +132,30 @@ func (r vfRep) event() map[string]any {
 	return map[string]any{"k": r.K, "i": r.I, "n": r.N, "v": r.V, "sz": r.Sz}
 }
 
+// vfIdx: the model's "astronomic index" 2000000000 stands for 2^63 on the wire (the largest class a 10-octet integer reaches:
+// it does not fit a signed 64-bit int)
+func vfIdx(i int) uint64 {
+	if i == 2000000000 {
+		return 1 << 63
+	}
+	return uint64(i)
+}
+
 func (r vfRep) bytes(huff bool) []byte {
 	switch r.K {
 	case "size":
 		return vfPInt(5, 0x20, uint64(r.Max))
 	case "indexed":
-		return vfPInt(7, 0x80, uint64(r.I))
+		return vfPInt(7, 0x80, vfIdx(r.I))
 	}
 	var b []byte
 	switch r.K {
 	case "incr":
-		b = vfPInt(6, 0x40, uint64(r.I))
+		b = vfPInt(6, 0x40, vfIdx(r.I))
 	case "noidx":
-		b = vfPInt(4, 0x00, uint64(r.I))
+		b = vfPInt(4, 0x00, vfIdx(r.I))
 	case "never":
-		b = vfPInt(4, 0x10, uint64(r.I))
+		b = vfPInt(4, 0x10, vfIdx(r.I))
 	}
 	if r.I == 0 {
 		b = append(b, vfPStr(r.N, huff)...)
@@ -275,8 +284,12 @@ func vfFields(fs []HeaderField) []map[string]any {
 }
 
 // feed p to d in pieces chosen by cut (nil = whole); returns emitted fields and the error
-func vfFeed(d *Decoder, p []byte, cuts []int) ([]HeaderField, error) {
-	var got []HeaderField
+func vfFeed(d *Decoder, p []byte, cuts []int) (got []HeaderField, err error) {
+	defer func() { // a panic inside the decoder is an outcome to report, not the end of the driver
+		if pv := recover(); pv != nil {
+			err = fmt.Errorf("PANIC in Decoder.Write: %v", pv)
+		}
+	}()
 	d.SetEmitFunc(func(f HeaderField) { got = append(got, f) })
 	prev := 0
 	for _, c := range append(cuts, len(p)) {
